@@ -25,6 +25,12 @@ func (s *Store) deleteModule(m *ModuleInstance) error {
 	m.prev = nil
 	m.next = nil
 
+	if cur, ok := s.nameToModule[m.ModuleName]; ok && cur != m {
+		// The name is owned by another module: m never made it into the registry
+		// (e.g. it lost the race for the name in registerModule), so leave the owner alone.
+		return nil
+	}
+
 	if m.ModuleName != "" {
 		delete(s.nameToModule, m.ModuleName)
 
